@@ -595,18 +595,30 @@ func main() {
 		{"tiny sphere (thinner than coarse cubes)", m3(sdf.Sphere3D(0.07))},
 	}
 	resos := vlib.Pick(c, []int{7, 16, 33}, []int{7, 8, 15, 16, 17, 32, 33, 64})
-	type sj struct{ si, n int }
+	type sj struct {
+		si, n int
+		far   bool // scene and box moved far from the origin
+	}
 	var sjobs []sj
 	for si := range shapes3 {
 		for _, n := range resos {
-			sjobs = append(sjobs, sj{si, n})
+			sjobs = append(sjobs, sj{si, n, false})
+			if si%3 == 0 && (n == 7 || n == 33 || n == 20) {
+				sjobs = append(sjobs, sj{si, n, true})
+			}
 		}
+		sjobs = append(sjobs, sj{si, 20, si%2 == 0})
 	}
 	var tr3 int64
 	done := c.ParFor(len(sjobs), func(i int) {
 		j := sjobs[i]
 		bb := sdf.Box3{Min: v3.Vec{X: -1.5, Y: -1.5, Z: -1.5}, Max: v3.Vec{X: 1.5, Y: 1.5, Z: 1.5}}
 		s := boxed3{shapes3[j.si].s, bb}
+		if j.far {
+			off := v3.Vec{X: 10, Y: -7.1, Z: 103.3}
+			bb.Min, bb.Max = bb.Min.Add(off), bb.Max.Add(off)
+			s = boxed3{sdf.Transform3D(shapes3[j.si].s, sdf.Translate3d(off)), bb}
+		}
 		mk := func() render.Render3 { return render.NewMarchingCubesOctree(j.n) }
 		l, err := lattice.Discover3(mk(), bb, 0)
 		if ce, ok := err.(*lattice.CoverageError); ok {
@@ -620,7 +632,7 @@ func main() {
 		got := render.ToTriangles(s, mk())
 		all := render.ToTriangles(&scaled3{s: s, k: k}, mk())
 		want := ref3(l, s)
-		desc := map[string]any{"renderer": "octree", "scene": shapes3[j.si].name, "meshCells": j.n}
+		desc := map[string]any{"renderer": "octree", "scene": shapes3[j.si].name, "meshCells": j.n, "moved_far_from_origin": j.far}
 		gk := triKeys(got, 1)
 		if a, b := diff(gk, triKeys(all, 1)); len(a)+len(b) > 0 {
 			c.Violation("octree|scene|differs-from-unpruned-render", fmt.Sprintf("%s n=%d: %d/%d triangles differ", shapes3[j.si].name, j.n, len(a), len(b)), desc)
@@ -761,13 +773,21 @@ func main() {
 	var sjobs2 []sj
 	for si := range shapes2 {
 		for _, n := range resos2 {
-			sjobs2 = append(sjobs2, sj{si, n})
+			sjobs2 = append(sjobs2, sj{si, n, false})
+			if si < 4 {
+				sjobs2 = append(sjobs2, sj{si, n, true})
+			}
 		}
 	}
 	var tr2 int64
 	done = c.ParFor(len(sjobs2), func(i int) {
 		j := sjobs2[i]
 		bb := sdf.Box2{Min: v2.Vec{X: -1.5, Y: -1.5}, Max: v2.Vec{X: 1.5, Y: 1.5}}
+		off2 := v2.Vec{}
+		if j.far {
+			off2 = v2.Vec{X: 103.3, Y: -7.1}
+			bb.Min, bb.Max = bb.Min.Add(off2), bb.Max.Add(off2)
+		}
 		mk := func() render.Render2 { return render.NewMarchingSquaresQuadtree(j.n) }
 		l, err := lattice.Discover2(mk(), bb, 0)
 		if ce, ok := err.(*lattice.CoverageError); ok {
@@ -779,10 +799,13 @@ func main() {
 			return
 		}
 		s := boxed2{shapes2[j.si].mk(l), bb}
+		if j.far {
+			s = boxed2{sdf.Transform2D(shapes2[j.si].mk(l), sdf.Translate2d(off2)), bb}
+		}
 		got := lattice.Collect2(s, mk())
 		all := lattice.Collect2(&scaled2{s: s, k: k}, mk())
 		want := ref2(l, s)
-		desc := map[string]any{"renderer": "quadtree", "scene": shapes2[j.si].name, "meshCells": j.n}
+		desc := map[string]any{"renderer": "quadtree", "scene": shapes2[j.si].name, "meshCells": j.n, "moved_far_from_origin": j.far}
 		gk := lineKeys(got)
 		if a, b := diff(gk, lineKeys(all)); len(a)+len(b) > 0 {
 			c.Violation("quadtree|scene|differs-from-unpruned-render", fmt.Sprintf("%s n=%d: %d segments only with pruning, %d only without", shapes2[j.si].name, j.n, len(a), len(b)), desc)
